@@ -269,4 +269,16 @@ KINDS = ["fee", "feh", "fem"]
 def gen_any(rng, k, quick=True):
     fam = FAMS[k % len(FAMS)]
     kind = KINDS[(k // len(FAMS) + k) % 3]
-    return fam(rng, kind, quick)
+    return with_meshed_side(fam(rng, kind, quick), k)
+
+
+def with_meshed_side(p, k):
+    """magnetics files as FEMM 4.2 / xfemm save them: arc records carry an eighth column (the side length the arc was last meshed
+    with), larger or smaller than the requested maximum segment angle; it is not an input of the mesher.  Derived from k, not from
+    the generator's random stream, so that the generated geometries stay what they were."""
+    if p.get("kind") == "fem" and p.get("arcs") and k % 3 != 1:
+        for j, a in enumerate(p["arcs"]):
+            m = a.get("maxseg", 10)
+            a["meshedside"] = [1.0, 20.0, m / 3.0, 3.8, m * 2.5][(k + j) % 5]
+        p.setdefault("features", []).append("arc-col8")
+    return p
